@@ -147,7 +147,7 @@ func contentHash(seed uint64, n int) string {
 // ---------- generator ----------
 
 var namePool = []string{"a", "b", "c", "A", "a.b", "a-b", "a b", "a0", "ab", ".hidden", "x.txt", "data.bin", "zz", "z",
-	"README", "ünï", "日本語", "é", "sub", "lib", "0", "_", "a+b", "a,b", "a=b", "~", "a\\b", "a:b", "%41", "a'b", "a\"b", "*", "?", "#", "[x]", "{y}"}
+	"..a", "...", "..data", "..hidden", "..", "README", "ünï", "日本語", "é", "sub", "lib", "0", "_", "a+b", "a,b", "a=b", "~", "a\\b", "a:b", "%41", "a'b", "a\"b", "*", "?", "#", "[x]", "{y}"}
 
 func genName(r *common.Rand, used map[string]bool) string {
 	for {
@@ -164,6 +164,9 @@ func genName(r *common.Rand, used map[string]bool) string {
 			s = fmt.Sprintf("f%d", r.Intn(1000))
 		default:
 			s = common.Pick(r, namePool)
+		}
+		if s == ".." { // not a name; names that merely BEGIN with two dots are
+			s = common.Pick(r, []string{"..a", "...", "..data", "..b.c", "..ü"})
 		}
 		if !used[s] {
 			used[s] = true
@@ -309,7 +312,7 @@ func (g *genCtx) fillLinks(root *Node) {
 				t = "."
 			}
 		case k < 5:
-			t = common.Pick(r, []string{"missing", "no/such/file", "./x", "a//b", "a/./b", "x/"})
+			t = common.Pick(r, []string{"missing", "no/such/file", "./x", "a//b", "a/./b", "x/", "..x", "..a/b", "a/..b", "...", ".../x", "./..data"})
 		case k < 6:
 			t = "."
 		case k < 7 && depth > 0:
@@ -351,7 +354,7 @@ func genTree(r *common.Rand, big, badLink bool) *Node {
 	return root
 }
 
-var itemNames = []string{"d", "dir", "out", "sub/dir", "a b", "ünï", "x.y", "deep/er/dir", "D", "data", "e", "f", "g/h", "日本"}
+var itemNames = []string{"..d", "...", "d", "dir", "out", "sub/dir", "a b", "ünï", "x.y", "deep/er/dir", "D", "data", "e", "f", "g/h", "日本"}
 
 var nonRootFlag = flag.Bool("nonroot", false, "this process is the unprivileged child: generate and run the non-root scenarios")
 
@@ -1122,6 +1125,20 @@ func runScenarioInner(sc *Scenario) {
 			}
 			if n.Kind == "f" && n.HardOf != "" {
 				run.Count("hard-link")
+				if strings.HasPrefix(n.name(), "..") {
+					run.Count("dotdot-name: hard link")
+				}
+			}
+			if strings.HasPrefix(n.name(), "..") {
+				run.Count("dotdot-name: " + n.Kind)
+			}
+			if n.Kind == "l" {
+				for _, c := range strings.Split(n.target(), "/") {
+					if strings.HasPrefix(c, "..") && c != ".." {
+						run.Count("dotdot-target")
+						break
+					}
+				}
 			}
 			if n.Kind == "f" {
 				switch {
@@ -2121,6 +2138,7 @@ func main() {
 		"duplicate-content", "hard-link", "item-added-via-symlink", "item-path-differs-from-name", "tree-links=through",
 		"tree-links=outside", "tree-with-setuid/setgid/sticky", "foreign=OK", "foreign=ERR reject", "unpack-good=OK",
 		"unpack-wrong-checksum=ERR", "unpack-wrong-digest=ERR", "direct-push-compared", "skipunpack-blob", "forceCAS-deduped",
+		"dotdot-name: f", "dotdot-name: d", "dotdot-name: l", "dotdot-name: hard link", "dotdot-target",
 		"filesize>=1MiB", "name>100", "name-nonascii", "nonroot: copy-in=OK", "nonroot: item=dir"} {
 		if run.Dist[k] == 0 {
 			missing = append(missing, k)
